@@ -98,6 +98,13 @@ def main():
     t_cases = time.time()
     corpus = load_corpus(prop_id)
     gen = P.cases(rng, tier)
+    kani_stats = {}
+    if ok_model and os.environ.get("VERIF_NO_KANI") != "1":
+        import kani as K
+        if prop_id in K.HARNESSES:
+            kextra, kbroken, kani_stats = K.run(prop_id, rng.fork("kani"), rep)
+            broken += kbroken
+            corpus = kextra + corpus  # a concrete playback is judged like any other case (implementation vs Spec)
     cases = corpus + gen
     rep.log(f"{len(cases)} cases ({len(corpus)} corpus), proofs {'ok' if ok_proof else 'BROKEN'}")
     counter = []  # counterexamples against the property on the real code
@@ -175,6 +182,7 @@ def main():
         "counterexamples": len(counter),
         "case_seconds": round(time.time() - t_cases, 2),
         "constants_not_located_by_translator": not_located,
+        "symbolic_correspondence": kani_stats,
     }
     for k, v in stats.items():
         cov.setdefault(k, v)
